@@ -12,6 +12,11 @@ import CocoVerif.Props.C07
 import CocoVerif.Spec.Device
 import CocoVerif.Props.C14
 import CocoVerif.Gen.EcbHelpers
+import CocoVerif.Model.Peg
+import CocoVerif.Gen.Grammar
+import CocoVerif.Gen.FrontTables
+import CocoVerif.Model.Front
+import CocoVerif.Model.AstPrint
 
 open CocoVerif.Model
 
@@ -234,6 +239,108 @@ def handleSkel (args : List String) : String :=
       if scanKw text == CocoVerif.Props.C07.skels bodies then "ok same" else "ok differ"
   | _ => "bad-op"
 
+/-! the front end: parse with the regenerated grammar, answer with a digest of the whole tree -/
+
+def ruleIndex : Std.HashMap String Nat :=
+  (List.range CocoVerif.Gen.Grammar.rules.size).foldl
+    (fun m k => m.insert CocoVerif.Gen.Grammar.rules[k]!.name k) {}
+
+def mix (h x : Nat) : Nat := (h * 1000003 + x + 1) % 2305843009213693951
+
+mutual
+  partial def treeDigest (t : Peg.PTree) (acc : Nat × Nat) : Nat × Nat :=
+    match t with
+    | .node name s e kids =>
+        let k := (ruleIndex[name]?).getD CocoVerif.Gen.Grammar.rules.size
+        let h := mix (mix (mix (mix acc.1 k) s) e) kids.length
+        kidsDigest kids (h, acc.2 + 1)
+  partial def kidsDigest (ts : List Peg.PTree) (acc : Nat × Nat) : Nat × Nat :=
+    match ts with
+    | [] => acc
+    | t :: ts => kidsDigest ts (treeDigest t acc)
+end
+
+def handleParse (args : List String) : String :=
+  match args with
+  | [t] =>
+    match unhexStr t with
+    | none => "bad-op"
+    | some text =>
+      let cps := text.toList.map Char.toNat
+      match Peg.parse CocoVerif.Gen.Grammar.rules CocoVerif.Gen.Grammar.start cps (cps.length * 64 + 100000) with
+      | .ok tree => let (h, n) := treeDigest tree (0, 0); s!"ok {n} {h}"
+      | .noMatch => "nomatch"
+      | .incomplete k => s!"incomplete {k}"
+      | .outOfFuel => "fuel"
+  | _ => "bad-op"
+
+def frontEnv (cps : List Nat) (floats : List (String × Option String)) : Front.Env :=
+  { inp := cps.toArray
+    floatRepr := fun t => match floats.find? (·.1 == t) with | some kv => kv.2 | none => none
+    functions := CocoVerif.Gen.FrontTables.functions
+    str2Functions := CocoVerif.Gen.FrontTables.str2Functions
+    str3Functions := CocoVerif.Gen.FrontTables.str3Functions
+    strNumFunctions := CocoVerif.Gen.FrontTables.strNumFunctions
+    numStrFunctions := CocoVerif.Gen.FrontTables.numStrFunctions
+    statements2 := CocoVerif.Gen.FrontTables.statements2
+    statements3 := CocoVerif.Gen.FrontTables.statements3
+    functionsToStatements := CocoVerif.Gen.FrontTables.functionsToStatements
+    functionsToStatements2 := CocoVerif.Gen.FrontTables.functionsToStatements2
+    numStrFunctionsToStatements := CocoVerif.Gen.FrontTables.numStrFunctionsToStatements
+    strFunctionsToStatements := CocoVerif.Gen.FrontTables.strFunctionsToStatements
+    singleKeywordStatements := CocoVerif.Gen.FrontTables.singleKeywordStatements
+    visitMethods := CocoVerif.Gen.FrontTables.visitMethods }
+
+/-- text -> parse tree -> object graph, printed like the dump of the real one -/
+def frontProg (text : String) (floatTable : String) : Except String Prog :=
+  let cps := text.toList.map Char.toNat
+  let floats := (floatTable.splitOn "\n").filterMap (fun l => match l.splitOn "\t" with
+    | [t, r] => some (t, if r == "!" then none else some r)
+    | _ => none)
+  match Peg.parse CocoVerif.Gen.Grammar.rules CocoVerif.Gen.Grammar.start cps (cps.length * 64 + 100000) with
+  | .ok tree =>
+      (match Front.visitTree (frontEnv cps floats) tree with
+       | .ok (.prog p) => .ok p
+       | .ok _ => .error "raise not-a-program"
+       | .error k => .error ("raise " ++ k))
+  | .noMatch => .error "nomatch"
+  | .incomplete k => .error s!"incomplete {k}"
+  | .outOfFuel => .error "fuel"
+
+def handleFront (args : List String) : String :=
+  match args with
+  | [t, f] =>
+    match unhexStr t, unhexStr f with
+    | some text, some ft =>
+      (match frontProg text ft with
+       | .ok p => "ok " ++ hexStr (AstPrint.prog p)
+       | .error e => e)
+    | _, _ => "bad-op"
+  | _ => "bad-op"
+
+/-- the whole tool in the model: source text -> BASIC09 text (front end, passes, emission, bundle) -/
+def handleConvert (lib : String) (args : List String) : String :=
+  match args with
+  | [flags, storage, procname, sizes, t, f] =>
+    match parseOpts flags storage procname sizes, unhexStr t, unhexStr f with
+    | some o, some text, some ft =>
+      (match frontProg text ft with
+       | .error e =>
+           if e == "nomatch" then "refused ParseError"
+           else if e.startsWith "incomplete" then "refused IncompleteParseError"
+           else if e.startsWith "raise " then "internal " ++ (e.drop 6).toString
+           else e
+       | .ok p =>
+          match Compile.convertAst o p with
+          | (.ok text, procname) =>
+              (match ProcBank.finish lib text procname o.outputDependencies o.defaultStrStorage with
+               | some out => s!"ok {hexStr out}"
+               | none => "internal UnboundLocalError")
+          | (.refused k, _) => s!"refused {k}"
+          | (.internal k, _) => s!"internal {k}")
+    | _, _, _ => "bad-op"
+  | _ => "bad-op"
+
 def handle (lib : String) (line : String) : String :=
   match (line.trimAscii.toString.splitOn " ") with
   | "img" :: args => handleImg args
@@ -242,6 +349,9 @@ def handle (lib : String) (line : String) : String :=
   | "lib" :: args => handleLib args
   | "cli" :: args => handleCli lib args
   | "skel" :: args => handleSkel args
+  | "parse" :: args => handleParse args
+  | "front" :: args => handleFront args
+  | "convert" :: args => handleConvert lib args
   | ["c14table"] =>
       "ok " ++ ";".intercalate (CocoVerif.Props.C14.emittedCalls.map (fun c =>
         c.2.1 ++ "|" ++ ",".intercalate c.2.2.1 ++ "|" ++ (if c.2.2.2 then "1" else "0")))
